@@ -94,17 +94,13 @@ impl BigNum {
     /// assert_eq!("-4321", b.to_string());
     /// ```
     pub fn new(n: isize) -> BigNum {
-        if n >= 0 {
-            BigNum {
-                pos: true,
-                val: vec![n as u32],
-            }
-        } else {
-            BigNum {
-                pos: false,
-                val: vec![(-n) as u32],
-            }
-        }
+        let m = n.unsigned_abs() as u64;
+        let mut res = BigNum {
+            pos: n >= 0,
+            val: vec![m as u32, (m >> 32) as u32],
+        };
+        res.shrink_to_fit();
+        res
     }
 
     /// Makes new `BigNum` from vector
